@@ -856,8 +856,25 @@ def run_tounicode(ctx: C.Ctx) -> None:
             ctx.fail(C.Failure("UTF-16BE target decoded wrongly", {"group": "utf16", "data": data.hex()}, "", line,
                                {"group": "utf16"}))
     # malformed / unusual token streams: tie only (outside the ToUnicode grammar)
+    templates = [
+        [("s", b"\x00\x01"), ("s", b"\x00\x03"), ("i", 65), ("k", "endbfrange")],                      # AssertionError
+        [("s", b"\x00\x01"), ("s", b"\x00\x03"), ("n", b"A"), ("k", "endbfrange")],                    # AssertionError
+        [("s", b"\x00\x01"), ("s", b"\x00\x03"), ("a", [("s", b"\x00A"), ("o",)]), ("k", "endbfrange")],  # PDFTypeError
+        [("s", b"\x00\x01"), ("s", b"\x00\x09"), ("s", b"\xff\xff\xff\xfe"), ("k", "endbfrange")],       # struct.error
+        [("s", b"\x00\x01"), ("s", b"\x00\x02"), ("s", b""), ("k", "endbfrange")],                       # [-0:] quirk
+        [("k", "def")], [("i", 1), ("k", "def")], [("k", "usecmap")],                                       # ValueError
+        [("s", b"\x00\x41"), ("s", b"\x00\x44"), ("i", 7), ("k", "endcidrange")],
+        [("s", b"\x01\x00\x00\x00\x41"), ("s", b"\x01\x00\x00\x00\x43"), ("i", -2), ("k", "endcidrange")],
+        [("s", b"\x01\x00\x00\x00\x41"), ("s", b"\x02\x00\x00\x00\x43"), ("i", 0), ("k", "endcidrange")],  # prefix differs
+        [("i", 66), ("s", b"\x00\x43"), ("s", b"\x00\x43"), ("i", 67), ("k", "endcidchar")],
+        [("k", "endcmap"), ("s", b"\x01"), ("s", b"\x00A"), ("k", "endbfchar"), ("k", "begincmap"),
+         ("s", b"\x02"), ("s", b"\x00B"), ("k", "endbfchar")],
+        [("s", b"\x01"), ("s", b"\x00A"), ("k", "foo"), ("s", b"\x02"), ("s", b"\x00B"), ("k", "endbfchar")],
+    ]
     for i in range(ctx.n(300, 10000)):
         toks = gen_wild_tokens(rng)
+        if i < 3 * len(templates):
+            toks = list(templates[i % len(templates)]) + (toks if i >= len(templates) else [])
         if rng.random() < 0.5:
             toks = HEADER_TOKS + toks
         got, e = call(lambda: impl_tounicode(toks_stream(toks)))
